@@ -412,7 +412,14 @@ func runC07Transport(e *Env) {
 	default:
 		ferr = simnet.ErrTimeout // a timeout-class net.Error (e.g. an expired write deadline)
 	}
-	e.Describe("channel=%s transport fault: %s call #%d fails with %q; exception handler swallows=%v", cc, []string{"Write/Writev", "Flush", "Read"}[what], k, ferr, swallow)
+	once := false
+	if !cc.Async && what != 2 {
+		// synchronous writes: the failure is only reported to the writer. Sometimes behind the transport wrappers, and
+		// sometimes a transient fault (only that call fails): consumed, it must leave a channel that works again
+		cc = e.drawBuffered(cc)
+		once = e.P(2) == 0
+	}
+	e.Describe("channel=%s transport fault: %s call #%d fails with %q (only that call: %v); exception handler swallows=%v", cc, []string{"Write/Writev", "Flush", "Read"}[what], k, ferr, once, swallow)
 	e.Count("point:transport/"+[]string{"write", "flush", "read"}[what], 1)
 	mid := &Probe{env: e, Name: "mid", Outbound: true, Swallow: swallow}
 	rig := e.NewRig(cc, false, mid)
@@ -423,6 +430,7 @@ func runC07Transport(e *Env) {
 	case 1:
 		rig.Conn.FailFlushAt, rig.Conn.FailFlushErr = k, ferr
 	}
+	rig.Conn.FailOnce = once
 	var escaped interface{}
 	e.Go("main", func() {
 		rig.Serve()
@@ -465,7 +473,7 @@ func runC07Transport(e *Env) {
 		} else if ina[0].Err != ferr && !errors.Is(ina[0].Err, ferr) {
 			e.Violate("failure-closes", "wrong-error", "channel closed with %q instead of the transport error %q", errStr(ina[0].Err), ferr)
 		}
-	} else if len(ina) == 0 && rig.Ch.IsActive() && what == 2 {
+	} else if len(ina) == 0 && rig.Ch.IsActive() && (what == 2 || once) {
 		c07RoundTrip(e, rig, last)
 	}
 	rig.Teardown()
